@@ -15,7 +15,7 @@ LEVEL_TEXT = ("Theorem in Coq: for every schedule of appends (in order, duplicat
               "O-3 truncation by offset, O-4 duplicate acked before its first copy is synced, O-5/O-5b head report + in-flight sync round acknowledging the new "
               "leader's entries to the old leader. The model is tied to the Go code on every run by executing seeded schedules on the real controllers and "
               "comparing every result, ack and the final WAL; at every Ack the follower's WAL is compared with the sending leader's log and with the synced offset.")
-LEVEL_NOTE = ("Kill images (the node abandoned without closing anything and restarted on a copy of its directories taken right after an answer; for the WAL also the content at the start of the last completed flush) are judged by specification verdicts only (restart:term-regressed-after-kill, restart:acked-entry-missing-after-kill, restart:log-differs-from-synced-prefix and the fence monitors across the kill): the model's crash step keeps the stored term and a cut of the log covering the synced prefix, which is what they enforce. The applied state is judged by a specification monitor only (not by a theorem): in spec-only scenarios that advertise commit offsets the node's DB, read through its KV handle, must be the fold of the leader's log up to the reported commit offset (apply:db-not-fold-of-log-prefix); restarts must bring back a cut of the pre-stop log covering the synced prefix (restart:*). Trusted: Coq kernel, extraction, the Go harness (gating WAL wrapper, stream mock, generated leader logs). "
+LEVEL_NOTE = ("Kill images (the node abandoned without closing anything and restarted on a copy of its directories taken right after an answer; for the WAL also the content at the start of the last completed flush) are judged by specification verdicts only (restart:term-regressed-after-kill, restart:acked-entry-missing-after-kill, restart:log-differs-from-synced-prefix and the fence monitors across the kill): the model's crash step keeps the stored term and a cut of the log covering the synced prefix, which is what they enforce. The applied state is judged by a specification monitor only (not by a theorem): in spec-only scenarios that advertise commit offsets the node's DB, read through its KV handle, must be the fold of the leader's log up to the reported commit offset (apply:db-not-fold-of-log-prefix); restarts must bring back a cut of the pre-stop log covering the synced prefix (restart:*). The same monitor runs on the LEADER's DB: a real LeaderController at replication factor 2 and 3 whose followers are replicate streams held by the harness (every Ack delivered when the schedule says so), client writes whose context is cancelled before the call / after the entry reached the leader's log and before the acknowledgement that commits it / after the answer, and a restart that leads alone; after every step the leader's DB must be the fold of its own log up to the commit offset stored in the DB, that offset must not pass the commit offset it reports and must have reached it once the write callbacks have run (fixed and seeded schedules, spec verdict only). Trusted: Coq kernel, extraction, the Go harness (gating WAL wrapper, stream mock, generated leader logs). "
               "Modelled, not verified: WAL as a list with a synced prefix (C09/C10), gRPC stream life cycle as explicit actions. "
               "Not modelled: the follower's apply loop and the applied state (equal applied state follows from equal entries by C06); the leader's side "
               "(cursor, quorum tracker: C08) appears only as obligations. Known finding (open): truncate:kept-lower-term-entries-not-in-leader-log.")
